@@ -299,6 +299,30 @@ def run(ctx):
                           "the encoder can produce %r for a %s, which "
                           "validate_encoded of the same datatype rejects" % (
                               w, cls))
+    # the output language assumed for J is that of json.dumps with its
+    # default ASCII escaping: every json.dumps call of the J module keeps it
+    # (ensure_ascii=False would write non-ASCII characters, which the tag
+    # grammar excludes, for any value containing one)
+    jm = fm["J"]
+    for fn in sorted(jm.functions.values(), key=lambda f: f.qualname):
+        for n in ast.walk(fn.node):
+            if isinstance(n, ast.Call) and dotted(n.func) == "json.dumps":
+                ctx.instance(R)
+                bad = [k.arg for k in n.keywords
+                       if k.arg in ("ensure_ascii", "separators", "indent",
+                                    "default", "cls", None) and not (
+                           k.arg == "ensure_ascii" and
+                           isinstance(k.value, ast.Constant) and
+                           k.value.value is True)]
+                ok = not bad
+                ctx.oblige(ok)
+                if not ok:
+                    ctx.violation(R, fn.short, unparse(n)[:60],
+                                  "json.dumps is called with %s: its output "
+                                  "is no longer within the printable-ASCII "
+                                  "JSON the J grammar accepts (e.g. for the "
+                                  "value {'n': 'caf\u00e9'})" % ", ".join(
+                                      str(b) for b in bad))
     # unrepresentable values must be reported by validate_decoded
     fl = fm["f"]
     f_vd = ctx.anchor("float.validate_decoded",
